@@ -11,7 +11,7 @@ use ark_ff::{One, Zero};
 use ark_poly_commit::{LabeledCommitment, LabeledPolynomial, PolynomialCommitment};
 use ark_std::rand::Rng;
 
-pub const KINDS: &[&str] = &["value+delta", "cancel-in-group", "swap-in-group", "cancel-across-groups", "point-moved", "commitment-swapped"];
+pub const KINDS: &[&str] = &["value+delta", "cancel-in-group", "swap-in-group", "cancel-across-groups", "point-moved", "point-moved-one-entry", "point-label-reused", "commitment-swapped"];
 
 pub fn generate(run_seed: u64) -> Scenario {
     let mut g = Gen::new(run_seed);
@@ -66,6 +66,14 @@ pub fn generate(run_seed: u64) -> Scenario {
                     let pts: std::collections::BTreeSet<usize> = (0..n).map(|p| point_of(op, p)).collect();
                     for z in pts {
                         faults.push(Fault { kind: k.to_string(), op: oi, target: z, aux: g.r.gen_range(0..8), param: g.r.gen() });
+                    }
+                }
+                "point-moved-one-entry" | "point-label-reused" => {
+                    // one query of a point label that carries several moves to another point value
+                    for a in 0..n {
+                        if (0..n).any(|b| b != a && point_of(op, b) == point_of(op, a)) && g.r.gen_bool(0.6) {
+                            faults.push(Fault { kind: k.to_string(), op: oi, target: a, aux: g.r.gen_range(0..8), param: g.r.gen() });
+                        }
                     }
                 }
                 "commitment-swapped" => {
@@ -178,6 +186,20 @@ pub fn run<S: Scheme>(scn: &Scenario, log: &EventLog) -> RunResult {
                         let d: S::F = nonzero_delta(scn.seed, &Fault { aux: 0, ..f.clone() }, S::F::zero());
                         let z_new = S::P::shift_point(&points[z], f.aux, d);
                         move_point::<S>(&mut bad, op, &sess, z, &z_new)
+                    }
+                }
+                "point-moved-one-entry" | "point-label-reused" => {
+                    // the two kinds differ in what else the statement says: "one-entry" = nothing else
+                    // names the polynomial at the old point value (its claimed value there is gone);
+                    // "label-reused" = another query of the same polynomial still does (see 3.2)
+                    let n = n_positions(op);
+                    // (the two bespoke schemes are batched by the harness's own adapters, not by the library)
+                    if f.target >= n || matches!(op, Op::Open { .. }) || matches!(S::FAMILY, Family::Kzg10 | Family::Mlpc) { false } else {
+                        let z = point_of(op, f.target);
+                        let d: S::F = nonzero_delta(scn.seed, &Fault { aux: 0, ..f.clone() }, S::F::zero());
+                        let z_new = S::P::shift_point(&points[z], f.aux, d);
+                        let (falsified, old_gone) = move_entry::<S>(&mut bad, op, &sess, f.target, &z_new);
+                        falsified && (old_gone == (f.kind == "point-moved-one-entry"))
                     }
                 }
                 "commitment-swapped" => {
@@ -317,5 +339,49 @@ fn move_point<S: Scheme>(bad: &mut Claim<S>, op: &Op, sess: &Sess<S>, z: usize, 
             falsified
         }
         _ => false,
+    }
+}
+
+/// Move the point of the single query at position `pos` to `z_new` (its point label and its claimed
+/// value stay): the statement now names one point label with two point values. Returns true only
+/// if the moved claim is false.
+fn move_entry<S: Scheme>(bad: &mut Claim<S>, op: &Op, sess: &Sess<S>, pos: usize, z_new: &S::Pt) -> (bool, bool) {
+    let scn = sess.scn;
+    match (bad, op) {
+        (Claim::Batch { qs, evals, .. }, Op::Batch { queries }) => {
+            let (p, zi) = queries[pos];
+            let old = &sess.points[zi];
+            if old == z_new { return (false, false); }
+            let l = scn.polys[p].label.clone();
+            let pl = scn.points[zi].label.clone();
+            if !qs.remove(&(l.clone(), (pl.clone(), old.clone()))) { return (false, false); }
+            qs.insert((l.clone(), (pl, z_new.clone())));
+            let Some(v) = evals.get(&(l.clone(), old.clone())).copied() else { return (false, false) };
+            // the old entry goes unless another query of the same polynomial still names the old point value
+            let old_gone = !qs.iter().any(|(l2, (_, z2))| *l2 == l && z2 == old);
+            if old_gone { evals.remove(&(l.clone(), old.clone())); }
+            evals.insert((l, z_new.clone()), v);
+            (sess.prover.polys[p].polynomial().eval_ref(z_new) != v, old_gone)
+        }
+        (Claim::Lc { qs, evals, .. }, Op::Lc { lcs, queries }) => {
+            let (li, zi) = queries[pos];
+            let old = &sess.points[zi];
+            if old == z_new { return (false, false); }
+            let ll = lcs[li].label.clone();
+            let pl = scn.points[zi].label.clone();
+            if !qs.remove(&(ll.clone(), (pl.clone(), old.clone()))) { return (false, false); }
+            qs.insert((ll.clone(), (pl, z_new.clone())));
+            let Some(v) = evals.get(&(ll.clone(), old.clone())).copied() else { return (false, false) };
+            let old_gone = !qs.iter().any(|(l2, (_, z2))| *l2 == ll && z2 == old);
+            if old_gone { evals.remove(&(ll.clone(), old.clone())); }
+            evals.insert((ll, z_new.clone()), v);
+            let mut t = S::F::zero();
+            for (c, term) in &lcs[li].terms {
+                let c: S::F = coeff_of(c, scn.seed);
+                t += c * match term { None => S::F::one(), Some(i) => sess.prover.polys[*i].polynomial().eval_ref(z_new) };
+            }
+            (t != v, old_gone)
+        }
+        _ => (false, false),
     }
 }
